@@ -98,6 +98,7 @@ func retypingRule(c *Ctx, ruleIdent, ruleNonEmpty string) {
 		return
 	}
 	c.Fn(FuncName(cl))
+	firstFresh := 0 // objects allocated by the closure itself have larger ids than this (set by call)
 	call := func(ex *Exec, st *State, data *SliceV, isStatusSet bool) []callRes {
 		var binds []Val
 		for _, fv := range cl.FreeVars {
@@ -126,6 +127,7 @@ func retypingRule(c *Ctx, ruleIdent, ruleNonEmpty string) {
 			}
 		}
 		fr := &Frame{fn: cl, regs: map[ssa.Value]Val{}, visits: map[*ssa.BasicBlock]int{}, widened: map[*ssa.BasicBlock]bool{}, phiHist: map[*ssa.Phi]Val{}, kept: map[*ssa.Phi]keptInv{}}
+		firstFresh = ex.nextObj
 		return ex.callValue(fr, st, &FuncV{Fn: cl, Bindings: binds}, []Val{data, mkSym(ex.syms.Get("ms", 32, true))}, nil, nil)
 	}
 	for _, sh := range readerShapes() {
@@ -135,7 +137,7 @@ func retypingRule(c *Ctx, ruleIdent, ruleNonEmpty string) {
 		data := ex.mkBytes(st, "data", in, false, 0)
 		ok := true
 		why := ""
-		n := 0
+		n := 1
 		for _, r := range call(ex, st, data, false) {
 			if r.panic {
 				ok = false
@@ -147,16 +149,29 @@ func retypingRule(c *Ctx, ruleIdent, ruleNonEmpty string) {
 				why = fmtEvents(pe)
 				continue
 			}
+			// every outcome (whatever the captured configuration holds) delivers the message exactly once
+			k := 0
 			for _, e := range r.st.Events {
 				if e.Kind != "call:recv" {
 					continue
 				}
-				n++
+				k++
 				msg, _ := e.Args[0].(*SliceV)
 				elems, okE := ex.sliceElems(r.st, msg)
 				if !okE || !segsEqual([]Seg{{Elems: elems}}, []Seg{{Elems: want}}, r.st.sameVal) {
 					ok = false
 					why = fmt.Sprintf("listener receives %s, the wire message was %s", arrayStringIn(r.st, &ArrayV{Segs: []Seg{{Elems: elems}}}), arrayStringIn(r.st, &ArrayV{Segs: []Seg{{Elems: want}}}))
+				} else if msg.Obj <= firstFresh || len(msg.Path) > 0 {
+					// the receiver may keep the message: it must not share storage with the decoder's slice or with
+					// anything that outlives the call (a buffer captured by the closure is rewritten by the next message)
+					ok = false
+					why = "the message handed to the listener shares storage that outlives the callback (the decoder's slice or a captured buffer): a retained message is overwritten by a later one"
+				}
+			}
+			if k != 1 {
+				n = k
+				if why == "" {
+					why = "on some path (depending on captured configuration or state) the decoder's message is not handed to the listener exactly once"
 				}
 			}
 		}
